@@ -710,8 +710,24 @@ def mk_field(t, name):
             if t[1][2] == t[2]:
                 return mk_field(t[1], name)
         if t[0] == "dc" and t[2] == "Some" and name == "0":
-            return ("some", t[1])
+            return mk_some(t[1])
     return ("field", t, name)
+
+
+def mk_some(x):
+    """payload of an Option known to be Some: reduces over a literal Some(..) and over φ (None alternatives dropped)"""
+    if isinstance(x, tuple) and x:
+        if x[0] == "agg" and x[1].endswith("option::Option"):
+            if x[2] == "Some":
+                for fn, ft in x[3]:
+                    if fn == "0":
+                        return ft
+            return ("some", x)
+        if x[0] == "phi":
+            alts = [a for a in x[1] if not (isinstance(a, tuple) and a and a[0] == "agg" and a[1].endswith("option::Option") and a[2] == "None")]
+            if alts and len(alts) < len(x[1]) or all(isinstance(a, tuple) and a and a[0] == "agg" for a in alts):
+                return mk_phi([mk_some(a) for a in alts]) if alts else ("some", x)
+    return ("some", x)
 
 
 def mk_phi(alts):
@@ -742,6 +758,8 @@ def subst(t, args):
         return mk_neg(subst(t[1], args))
     if h == "field":
         return mk_field(subst(t[1], args), t[2])
+    if h == "some" and len(t) == 2:
+        return mk_some(subst(t[1], args))
     if h == "phi":
         return mk_phi([subst(x, args) for x in t[1]])
     if h == "agg":
